@@ -9,6 +9,7 @@ from ..cfg import calls_at
 from ..core import Checker
 from ..loader import Func, norm, walk_expr, walk_own
 from ..prov import call_name, expand1, get_arg, refers_to_call, scope_of
+from .generic_lints import run_all as _lints
 
 
 _LIB_SIG = {"diff": ["first", "second"], "patch": ["diff_result", "destination"]}
@@ -31,6 +32,7 @@ def _calls_named(fn: Func, name: str) -> List[ast.Call]:
 
 
 def check(ck: Checker) -> None:
+    _lints(ck, "C19.aliasing", "hashfile.tree")
     prog, res = ck.prog, ck.res
     ck.decided = [
         "C19.conflict: _merge returns a combined result only across 'diff(patch(ours+theirs), patch(theirs+ours)) is empty', both applied to the same ancestor; the early returns hand back the other side exactly when this side's diff is empty; both per-side diffs are taken against the ancestor under the caller's policy",
@@ -67,8 +69,10 @@ def check(ck: Checker) -> None:
     ck.require(set(sides) == {"our", "their"}, "C19.conflict", mg, mg.node, "one diff per side (our, their)", f"side diffs cover {sorted(sides)}", construct="side diffs / both sides")
     patches = _calls_named(mg, "patch")
     diffs = _calls_named(mg, "diff")
-    rets = [n for n in g.nodes.values() if n.kind == "stmt" and isinstance(n.ast, ast.Return) and n.ast.value is not None]
-    combined = [n for n in rets if flows_from_calls(g, n, n.ast.value, patches)]
+    from ..an import result_sites
+
+    sites = result_sites(g)
+    combined = [st for st in sites if flows_from_calls(g, st.node, st.value, patches)]
     ck.floor("C19.conflict", len(combined), 1, "returns of a combined (patched) result")
 
     def cross_checked(t, lab):
@@ -84,8 +88,11 @@ def check(ck: Checker) -> None:
                     return True
         return False
 
-    for n in combined:
-        w = cut(g, [n.id], cross_checked)
+    from ..an import cut_result
+
+    for st in combined:
+        n = st.ret
+        w = cut_result(g, st, cross_checked)
         ck.require(w is None, "C19.conflict", mg, n,
                    "combined result is returned only when both application orders give the same dictionary",
                    "a combined result can be returned without the ours-first / theirs-first cross-check: conflicting entries would be silently overridden by one side",
@@ -106,10 +113,11 @@ def check(ck: Checker) -> None:
     ck.require({("our", "their", "ancestor"), ("their", "our", "ancestor")} <= sig, "C19.conflict", mg, mg.node,
                "both orders (ours then theirs, theirs then ours) are applied to the ancestor", f"the two application orders are not both applied to the ancestor: {sorted(sig)}", construct="patch(a+b, ancestor), patch(b+a, ancestor)")
     # early returns: other side's copy exactly when this side's diff is empty
-    for n in rets:
-        if n in combined:
+    for st in sites:
+        if st in combined:
             continue
-        v = n.ast.value
+        n = st.node
+        v = st.value
         txt = norm(v)
         side = "their" if "their" in txt else ("our" if "our" in txt else None)
         if side is None:
@@ -121,7 +129,7 @@ def check(ck: Checker) -> None:
         def other_empty(t, lab, oc=oc):
             return t.kind == "test" and lab == "F" and oc is not None and flows_from_calls(g, t, t.ast, [oc])
 
-        w = cut(g, [n.id], other_empty)
+        w = cut_result(g, st, other_empty)
         ck.require(w is None, "C19.conflict", mg, n, f"`{side}` is returned as the result only when `{other}` did not change anything",
                    f"`{side}` can be returned as the merge result although `{other}` made changes (they would be dropped)", witness=g.fmt_path(w) if w else None)
     _errors(ck, mg, g, patches)
